@@ -51,22 +51,52 @@ fn check_string(ctx: &mut Ctx, w: &World, s: &str, origin: &str) -> String {
     let strict = catch_unwind(AssertUnwindSafe(|| parse_query(s)));
     let lenient = catch_unwind(AssertUnwindSafe(|| parse_query_lenient(s)));
     let mut strict_ast: Option<UserInputAst> = None;
-    // character layer: the Lean strict parser predicts the outcome (tree / error / panic) on any text
+    // character layer: the Lean strict and lenient parsers predict both outcomes on any text
+    // (`model_reproduces`: second leg of the attribution of a strict/lenient divergence)
+    let mut model_reproduces = false;
     if s.len() <= 1200 {
+        let tree_of = |ast: &UserInputAst| {
+            let mut out = vec![];
+            canon_chars(&serde_json::to_value(ast).unwrap_or(Value::Null), &mut out);
+            out.join(",")
+        };
         let real = match &strict {
             Err(_) => "panic".to_string(),
             Ok(Err(_)) => "error".to_string(),
-            Ok(Ok(ast)) => {
-                let mut out = vec![];
-                canon_chars(&serde_json::to_value(ast).unwrap_or(Value::Null), &mut out);
-                format!("tree {}", out.join(","))
-            }
+            Ok(Ok(ast)) => format!("tree {}", tree_of(ast)),
         };
-        let model = normalise_model_tree(&ctx.model.ask(&format!("C16 parse {}", crate::model::hex(s.as_bytes()))));
+        let real_l = match &lenient {
+            Err(_) => "panic".to_string(),
+            Ok((ast, errs)) => format!("tree {} {}", errs.len(), tree_of(ast)),
+        };
+        let answer = ctx.model.ask(&format!("C16 parse2 {}", crate::model::hex(s.as_bytes())));
+        let mut parts = answer.splitn(3, '|');
+        let (m_strict, m_lenient, m_ff) = (parts.next().unwrap_or("?"), parts.next().unwrap_or("?"), parts.next().unwrap_or("?"));
+        // the agreement statement (C16_lenient_agrees_chars) evaluated on this text: no catalogued
+        // divergence feature + strict accepts  =>  lenient returns the same tree and no error
+        if m_ff == "1" {
+            if let (Ok(Ok(a)), Ok((l, errs))) = (&strict, &lenient) {
+                ctx.report.count("agreement:feature-free-and-strict-ok");
+                if a != l || !errs.is_empty() {
+                    ctx.report.violation("model", "C16:agreement-predicate-refuted", format!("{}: no catalogued divergence feature (featureFree) and strict accepts, but lenient returns {:?} with {} errors (strict: {:?})", short(s), l, errs.len(), a), case.clone());
+                }
+            }
+        } else if matches!(&strict, Ok(Ok(_))) {
+            ctx.report.count("agreement:strict-ok-with-feature");
+        }
+        let model = normalise_model_tree(m_strict);
+        let model_l = match m_lenient.strip_prefix("tree ").and_then(|r| r.split_once(' ')) {
+            Some((n, t)) => format!("tree {n} {}", normalise_model_tree(&format!("tree {t}")).trim_start_matches("tree ")),
+            None => m_lenient.to_string(),
+        };
         ctx.report.count(&format!("char-layer:{}", real.split(' ').next().unwrap_or("")));
         if model != real {
             ctx.report.violation("model", "C16:char-layer-mismatch", format!("{}: real strict parser {} ≠ Lean character-layer parser {}", short(s), short(&real), short(&model)), case.clone());
         }
+        if model_l != real_l {
+            ctx.report.violation("model", "C16:char-layer-lenient-mismatch", format!("{}: real lenient parser {} ≠ Lean lenient parser {}", short(s), short(&real_l), short(&model_l)), case.clone());
+        }
+        model_reproduces = model == real && model_l == real_l;
     }
     match strict {
         Err(e) => {
@@ -98,7 +128,9 @@ fn check_string(ctx: &mut Ctx, w: &World, s: &str, origin: &str) -> String {
             }
             if let Some(ast) = &strict_ast {
                 if *ast != last || !errs.is_empty() {
-                    let key = classify_lenient_diff(s, ast, &last, &errs.iter().map(|e| e.message.clone()).collect::<Vec<_>>());
+                    // attributed to a catalogued family only if (1) the counterfactual explains it and
+                    // (2) the Lean models reproduce it: lenient = model-of-lenient ≠ model-of-strict = strict
+                    let key = if model_reproduces || s.len() > 1200 { classify_lenient_diff(s, ast, &last, &errs.iter().map(|e| e.message.clone()).collect::<Vec<_>>()) } else { "C16:lenient-differs-from-strict" };
                     ctx.report.violation(
                         "oracle",
                         key,
